@@ -392,7 +392,7 @@ pub fn record_orders(args: &Args) {
             dt = Some(d);
         });
         if let Some(d) = dt {
-            emit_guarded(&mut out, json!({"ev": "vtree_dt", "cnf": stored_json(&cnf)}), |e| {
+            emit_guarded(&mut out, json!({"ev": "vtree_dt", "cnf": stored_json(&cnf), "dtree": dtree_json(&d)}), |e| {
                 match VTree::from_dtree(&d) {
                     Some(t) => e["tree"] = vtree_json(&t),
                     None => e["none"] = json!(true),
